@@ -31,7 +31,7 @@ theorem inner_noblock (svc : Check) (st : List Str) (a : Acc) (c : Check)
     obtain ⟨⟨h1, h2⟩, h3⟩ := hc
     simp only [h1, h2, h3, Bool.false_eq_true, if_false]
     by_cases hs : (svc.serviceID == c.serviceID) = true
-    · by_cases hp : hasStatus c st = true <;> simp [hs, hp, ha]
+    · by_cases hp : hasStatus c st = true <;> simp [hs, hp]
     · simp [hs, ha]
   · simp [hn, ha]
 
@@ -54,7 +54,7 @@ theorem inner_block (svc : Check) (st : List Str) (a : Acc) (c : Check) (hc : bl
       · simp [h1]
       · by_cases h2 : (c.checkID == nodeMaint) = true
         · simp [h1, h2]
-        · simp [h1, h2, h3, h3']
+        · simp [h2, h3, h3']
 
 theorem fold_skip (svc : Check) (st : List Str) (l : List Check) (a : Acc) (ha : a.skip = true) :
     (l.foldl (inner svc st) a).skip = true := by
